@@ -339,6 +339,11 @@ func gen(seed int64, n int, tier string) []interface{} {
 			decl = append(decl, c)
 		}
 		ext := []Callee{{"x", "E", "e"}, {"x", "E", "f"}, {"java.util", "List", "add"}, {"", "", "orphan"}, {"p", "C0", ""}, {"q.r", "Iface", "run"}}
+		// a library method whose class and method name coincide with a project method of another package
+		if r.Intn(2) == 0 {
+			d := decl[r.Intn(len(decl))]
+			ext = append(ext, Callee{"org.lib.ext", d.Node, d.Name}, Callee{"org.lib.ext", d.Node, d.Name})
+		}
 		style := r.Intn(4) // 0 sparse tree-ish, 1 dense, 2 chain/cycle, 3 star
 		in := Input{DI: map[string]string{}}
 		for i, d := range decl {
